@@ -241,6 +241,8 @@ package gossipval
 //@   ensures accept_shape: res.Result == ACCEPT ==> signedAgg.Message.Aggregate.Data.Target.Epoch == signedAgg.Message.Aggregate.Data.Slot / gv_spec(aggVal).SLOTS_PER_EPOCH && bl_count(signedAgg.Message.Aggregate.AggregationBits) >= 1
 //@   ensures accept_first: res.Result == ACCEPT ==> !gv_seen_aggregator(old(gvver), signedAgg.Message.Aggregate.Data.Target.Epoch, signedAgg.Message.AggregatorIndex) && !gv_seen_agg(old(gvver), att_root(gv_spec(aggVal), signedAgg.Message.Aggregate))
 //@   ensures accept_block: res.Result == ACCEPT ==> !gv_bad_block(old(gvver), signedAgg.Message.Aggregate.Data.BeaconBlockRoot)
+//@   ensures accept_block_seen: res.Result == ACCEPT ==> ch_known(old(gvver), signedAgg.Message.Aggregate.Data.BeaconBlockRoot)
+//@   ensures accept_target: res.Result == ACCEPT ==> !ch_unknown(old(gvver), signedAgg.Message.Aggregate.Data.Target.Root, signedAgg.Message.Aggregate.Data.BeaconBlockRoot) && ch_insub(old(gvver), signedAgg.Message.Aggregate.Data.Target.Root, signedAgg.Message.Aggregate.Data.BeaconBlockRoot)
 //@   ensures accept_finalized: res.Result == ACCEPT ==> (signedAgg.Message.Aggregate.Data.BeaconBlockRoot != ch_fin(old(gvver)).Root ==> !ch_unknown(old(gvver), ch_fin(old(gvver)).Root, signedAgg.Message.Aggregate.Data.BeaconBlockRoot) && ch_insub(old(gvver), ch_fin(old(gvver)).Root, signedAgg.Message.Aggregate.Data.BeaconBlockRoot))
 //@   ensures accept_selection: res.Result == ACCEPT ==> (exists e EpcP, st StateI :: aggsel_ok(gv_spec(aggVal), e, st, signedAgg.Message.Aggregate.Data.Slot, signedAgg.Message.Aggregate.Data.Index, signedAgg.Message.AggregatorIndex, signedAgg.Message.SelectionProof))
 //@   ensures accept_aggregator_signature: res.Result == ACCEPT ==> sig_valid(signedAgg.Signature) && (exists st StateI, p CPubP :: pub_valid(p.Compressed) && bls_ok(p.Compressed, seq(signing_root(aggproof_root(gv_spec(aggVal), signedAgg.Message), state_domain(st, common.DOMAIN_AGGREGATE_AND_PROOF, signedAgg.Message.Aggregate.Data.Target.Epoch))), signedAgg.Signature))
